@@ -343,7 +343,10 @@ class C20(fw.Check):
         "filtered_exact", "filter_strEq_exact", "filter_member_exact", "filter_typedBy_exact", "id_pair_exact",
         "fuzzy_equals_match_on_pairs", "query_tables_ok", "query_sound_complete", "value_pair_exact",
         "typed_literal_query_matches", "value_query_matches", "id_query_matches",
-        "repository_query_matches"]]
+        "repository_query_matches",
+        "query_tables_ok2", "direct_spec_extends", "query_sound_complete_ids",
+        "query_sound_complete_values", "query_sound_complete_full", "match_search_sound_complete",
+        "match_search_reports_exact", "fuzzy_search_reports_exact"]]
     trusted_base = [
         "Lean 4.33.0 kernel; axioms propext, Classical.choice, Quot.sound only (audited per theorem)",
         "hand-written models lean/OdmlModel/Model/Query.lean and Model/Rdf.lean, tied to /repo by this run",
